@@ -28,6 +28,8 @@ AMBIENT = ("rand::rngs::thread::rng", "rand::random", "rand::random_range", "ran
 
 
 def run(facts, tr, rep):
+    _n_ops = check_no_panicking_time_arith(facts, tr, rep, "C19.NO-PANIC-ARITH", facts.crates[CRATE].bodies)
+    rep.note("panicking Instant/Duration operators examined in the crate: %d" % _n_ops)
     sbs = service_call_bodies(facts, crate=CRATE)
     if not sbs:
         rep.anchor_missing("Service::call of the chaos service")
@@ -168,13 +170,19 @@ def run(facts, tr, rep):
                 rep.saw(ib)
                 ig = graph(ib)
                 somes = [(i, j) for (i, j, node) in ret_assigns(tr, ib) if node[0] == "agg" and tr.agg_of(node)[1].get("variant") == "Some"]
+                # the rate the injector compares with is the one its public error_rate() reports
+                rate_fields = set()
+                for it2 in im["items"]:
+                    if it2["name"] == "error_rate" and facts.bodies.get(it2["def"]) is not None:
+                        for (_i, _j, nd) in ret_assigns(tr, facts.bodies[it2["def"]]):
+                            rate_fields |= {x[2] for x in tr.walk(nd, limit=30) if x[0] == "field" and isinstance(x[2], str)}
                 for (i, j) in somes:
                     ninj += 1
                     ok = False
                     for e in dominating_edges(tr, ib, i):
                         if e["kind"] == "bool":
                             cm = cmp_on_edge(tr, e)
-                            if cm and cm[0] == "Lt" and peel(cm[1])[0] == "param" and mentions_field(tr, cm[2], "rate"):
+                            if cm and cm[0] == "Lt" and peel(cm[1])[0] == "param" and any(mentions_field(tr, cm[2], rf) for rf in (rate_fields or {"rate"})):
                                 ok = True
                     rep.ob("C19.GUARDS", skey(ib, "inject-some"), ok, ig.where(i, j),
                            "an error is injected only when roll < rate" if ok else "an error is injected on a condition other than roll < rate")
